@@ -1,7 +1,7 @@
 CONSTANTS
   NumAtoms = {"n0", "n1"}
   IdxAtoms = {"i0", "i1"}
-  FuncAtoms = {"f0", "f1"}
+  FuncAtoms = {"f0", "f1", "f3"}
   StrAtoms = {"sa", "sb"}
   MaxArgs = 3
   MaxBP = 2
